@@ -232,7 +232,7 @@ impl<F: Write + Seek> Allocator<F> {
         debug_assert_ne!(start_sector_id, consts::END_OF_CHAIN);
         let mut last_sector_id = start_sector_id;
         loop {
-            let next = self.fat[last_sector_id as usize];
+            let next = self.next(last_sector_id)?;
             if next == consts::END_OF_CHAIN {
                 break;
             }
@@ -369,7 +369,14 @@ impl<F: Write + Seek> Allocator<F> {
         debug_assert!(index <= self.fat.len());
         let fat_entries_per_sector =
             self.sectors.sector_len() / size_of::<u32>();
-        let fat_sector_id = self.difat[index / fat_entries_per_sector];
+        let Some(&fat_sector_id) =
+            self.difat.get(index / fat_entries_per_sector)
+        else {
+            invalid_data!(
+                "FAT entry {} is not covered by any FAT sector",
+                index
+            );
+        };
         let offset_within_sector = 4 * (index % fat_entries_per_sector) as u64;
         let mut sector = self
             .sectors
